@@ -26,6 +26,7 @@ RULE = ("crash-point enumeration over the lifecycle of instrumented sources (asy
         "the scenario's terminating event started; distinct = (spec, flavours, scenario)")
 RULE += (' Also: adapter sources forwarding aclose through __getattr__, future-like sources, sequences of uses over a fresh adapter class per case (instances with and without aclose), groupby closed after a failing source/key and after a cancelled advance, functions/keys that are not callable at all.')
 RULE += (' Also: class sources have value semantics (all equal, unhashable); async iterables that are not iterators.')
+RULE += (' Also: a source whose aclose appears only once iteration has begun; tee children closed in reverse order.')
 ASSUMPTIONS = ["sources' own aclose never suspends or fails", "sync iterables have nothing to release",
                "a generator-based tool closed before its first step runs no code (language semantics): sources need "
                "not be closed then, except for handles that advertise eager closing (chain, tee, groupby)"]
